@@ -475,3 +475,276 @@ Proof.
   - destruct uri; split; try reflexivity; sat_all.
   - destruct uri; split; try reflexivity; sat_all.
 Qed.
+
+(* ================= one token per argument: the written line under MPD's tokenizer ================= *)
+
+(* [w] is a wire text that MPD's NextParam reads as exactly the token [t], whatever follows *)
+Definition good (w t : bytes) : Prop :=
+  (forall tail, sep_tail tail -> next_param (w ++ tail) = Some (t, strip_left tail)) /\
+  (exists h r, w = h :: r /\ is_ws h = false) /\
+  ends_nonws w /\
+  Forall (fun x => x < 256 /\ x <> LF /\ x <> 0) w.
+
+Fixpoint wire_items (ws : list bytes) : bytes :=
+  match ws with
+  | [] => []
+  | w :: r => SP :: w ++ wire_items r
+  end.
+Definition wire_items' (ws : list bytes) : bytes :=
+  match ws with
+  | [] => []
+  | w :: r => w ++ wire_items r
+  end.
+
+Lemma wire_items_sep ws : sep_tail (wire_items ws).
+Proof. destruct ws; [left; reflexivity | right; eexists; reflexivity]. Qed.
+
+Lemma strip_left_items ws ts : Forall2 good ws ts -> strip_left (wire_items ws) = wire_items' ws.
+Proof.
+  intros H. destruct H as [|w t ws ts (_ & (h & r & -> & W) & _) _]; [reflexivity|].
+  simpl. rewrite W. reflexivity.
+Qed.
+
+Lemma params_items ws : forall ts fuel,
+  Forall2 good ws ts -> (length ws <= fuel)%nat -> params fuel (wire_items' ws) = Some ts.
+Proof.
+  induction ws as [|w ws IH]; intros ts fuel H Hf.
+  - inversion H; subst. destruct fuel; reflexivity.
+  - inversion H as [|w' t ws' ts' G Hr]; subst.
+    destruct G as (NP & (h & r & E & W) & _).
+    destruct fuel as [|f]; [simpl in Hf; lia|].
+    specialize (NP (wire_items ws) (wire_items_sep ws)).
+    unfold wire_items'. rewrite E in *. cbn [params app]. cbn [app] in NP. rewrite NP.
+    rewrite (strip_left_items ws ts' Hr), (IH ts' f Hr); [reflexivity | simpl in Hf; lia].
+Qed.
+
+Lemma ends_items ws ts : ws <> [] -> Forall2 good ws ts -> ends_nonws (wire_items ws).
+Proof.
+  intros Hne H. induction H as [|w t ws ts G Hr IH]; [congruence|].
+  simpl. destruct ws as [|w2 ws2].
+  - simpl. rewrite app_nil_r. apply (ends_app [SP]). apply G.
+  - change (SP :: w ++ wire_items (w2 :: ws2)) with ((SP :: w) ++ wire_items (w2 :: ws2)).
+    apply ends_app. apply IH. discriminate.
+Qed.
+
+Lemma items_length ws ts : Forall2 good ws ts -> (length ws <= length (wire_items' ws))%nat.
+Proof.
+  intros H. assert (G : (length ws <= length (wire_items ws))%nat).
+  { induction H as [|w t ws ts (_ & (h & r & -> & _) & _) Hr IH]; simpl; [lia|]. rewrite app_length. lia. }
+  destruct H as [|w t ws ts (_ & (h & r & -> & _) & _) Hr]; simpl; [lia|].
+  rewrite app_length.
+  assert (G2 : (length ws <= length (wire_items ws))%nat).
+  { clear G. induction Hr as [|w2 t2 ws2 ts2 (_ & (h2 & r2 & -> & _) & _) Hr2 IH2]; simpl; [lia|]. rewrite app_length. lia. }
+  lia.
+Qed.
+
+Lemma items_clean ws ts : Forall2 good ws ts -> Forall (fun x => x <> LF /\ x <> 0) (wire_items ws).
+Proof.
+  induction 1 as [|w t ws ts (_ & _ & _ & C) Hr IH]; simpl; [constructor|].
+  constructor; [split; discriminate|]. apply Forall_app. split; [|exact IH].
+  eapply Forall_impl; [|exact C]. simpl. tauto.
+Qed.
+
+Theorem tokenize_items name ws ts :
+  wf_bytes name -> build name = inr name -> Forall2 good ws ts ->
+  mpd_tokenize (send_bytes (name ++ wire_items ws)) = Some (name :: ts).
+Proof.
+  intros Wn Hb HG.
+  apply build_ok_iff in Hb as (_ & Hfo & Hcs & _).
+  assert (Hname : Forall (fun x => valid_word_char x = true /\ is_ws x = false /\ x <> LF /\ x <> 0) name).
+  { apply Forall_forall. intros x Hin. unfold wf_bytes in Wn. rewrite Forall_forall in Wn, Hcs.
+    destruct (command_charset_plain x (Wn x Hin) (Hcs x Hin)) as (A & B & C & _).
+    split; [apply command_charset_word; auto | auto]. }
+  assert (Hline : mpd_line (send_bytes (name ++ wire_items ws)) = name ++ wire_items ws).
+  { apply mpd_line_send.
+    - apply Forall_app. split; [eapply Forall_impl; [|exact Hname]; simpl; tauto | apply (items_clean ws ts HG)].
+    - destruct ws as [|w r].
+      + simpl. rewrite app_nil_r. destruct (rev name) as [|l rr] eqn:E.
+        * apply (f_equal (@rev N)) in E. rewrite rev_involutive in E. simpl in E. subst name. contradiction.
+        * exists l, rr. split; [exact E|]. assert (In l name) by (apply in_rev; rewrite E; left; reflexivity).
+          rewrite Forall_forall in Hname. apply Hname. assumption.
+      + apply ends_app. apply (ends_items (w :: r) ts); [discriminate | exact HG]. }
+  unfold mpd_tokenize. rewrite Hline.
+  destruct name as [|c n]; [contradiction|]. simpl in Hfo.
+  assert (Hl : valid_word_first c = true).
+  { apply first_charset_letter; [|exact Hfo]. inversion Wn; assumption. }
+  cbn [app next_word]. rewrite Hl. inversion Hname; subst.
+  rewrite (scan_word n (wire_items ws)); [| eapply Forall_impl; [|exact H2]; simpl; tauto | apply wire_items_sep].
+  rewrite (strip_left_items ws ts HG).
+  rewrite (params_items ws ts _ HG); [reflexivity | apply (items_length ws ts HG)].
+Qed.
+
+(* what add_args appends *)
+Lemma add_args_wire l : forall c,
+  Forall (fun a => Forall (fun x => argument_reject x = false) (arg_rendered a)) l ->
+  add_args c l = Some (c ++ wire_items (map arg_rendered l)).
+Proof.
+  induction l as [|a l IH]; intros c H; simpl.
+  - rewrite app_nil_r. reflexivity.
+  - inversion H as [|a' l' Ha Hl]; subst.
+    destruct (add_argument_raw_spec c (arg_rendered a)) as [_ OK]. rewrite (OK Ha).
+    rewrite (IH _ Hl). rewrite <- !app_assoc. reflexivity.
+Qed.
+
+Lemma good_not_rejected w t : good w t -> Forall (fun x => argument_reject x = false) w.
+Proof.
+  intros (_ & _ & _ & C). eapply Forall_impl; [|exact C]. simpl. intros x (Hx & H1 & H2).
+  destruct (argument_reject x) eqn:E; [|reflexivity].
+  destruct (argument_reject_spec x Hx E); congruence.
+Qed.
+
+(* ----- the three kinds of argument ----- *)
+
+(* strings: C06's theorem, per argument *)
+Definition str_ok (s : bytes) : Prop := wf_bytes s /\ K s = false /\ Forall (fun x => x <> LF /\ x <> 0) s.
+
+Lemma good_str s : str_ok s -> good (escape_argument s) s.
+Proof.
+  intros (W & HK & C). split; [|split; [|split]].
+  - intros tail Ht. apply next_param_escape; assumption.
+  - apply escape_head. exact HK.
+  - apply ends_escape. exact HK.
+  - apply Forall_forall. intros x Hin. unfold wf_bytes in W. rewrite Forall_forall in W, C.
+    apply escape_bytes in Hin as [Hin|[E|E]]; [| subst x; unfold BS, LF; lia | subst x; unfold DQ, LF; lia].
+    destruct (C x Hin). split; [apply W; exact Hin | tauto].
+Qed.
+
+(* what the non-string renderers emit: bytes the unquoted form carries unchanged *)
+Definition plain_char (c : N) : bool := (c <? 256) && valid_unquoted_char c && negb (should_escape c).
+Definition plain (r : bytes) : bool := negb (beq r []) && forallb plain_char r.
+
+Lemma good_plain r : plain r = true -> good r r.
+Proof.
+  unfold plain. intros H. apply andb_true_iff in H as [Hne Hall].
+  destruct r as [|c r]; [discriminate|].
+  assert (Hv : forallb valid_unquoted_char (c :: r) = true).
+  { apply forallb_forall. intros x Hin. rewrite forallb_forall in Hall. specialize (Hall x Hin).
+    unfold plain_char in Hall. destruct (valid_unquoted_char x); [reflexivity|]. rewrite andb_false_r in Hall. discriminate. }
+  assert (Hb : Forall (fun x => x < 256 /\ is_ws x = false) (c :: r)).
+  { apply Forall_forall. intros x Hin. rewrite forallb_forall in Hall, Hv. specialize (Hall x Hin).
+    destruct (valid_unquoted_not_ws x (Hv x Hin)) as [W _]. unfold plain_char in Hall. split; [lia | exact W]. }
+  split; [|split; [|split]].
+  - intros tail Ht. simpl in Hv. apply andb_true_iff in Hv as [Hc Hr].
+    cbn [app next_param]. destruct (valid_unquoted_not_ws c Hc) as [_ D]. rewrite D.
+    unfold next_unquoted. rewrite Hc, (scan_unquoted r tail Hr Ht). reflexivity.
+  - exists c, r. split; [reflexivity|]. inversion Hb; tauto.
+  - destruct (rev (c :: r)) as [|l rr] eqn:E.
+    + apply (f_equal (@rev N)) in E. rewrite rev_involutive in E. discriminate.
+    + exists l, rr. split; [exact E|]. assert (In l (c :: r)) by (apply in_rev; rewrite E; left; reflexivity).
+      rewrite Forall_forall in Hb. apply Hb. assumption.
+  - eapply Forall_impl; [|exact Hb]. simpl. intros x [H1 H2]. unfold is_ws, LF in *. lia.
+Qed.
+
+(* filters: Filter::render wraps the expression in quotes and protects its inner quotes; MPD's
+   NextString undoes exactly that (values without a double quote; see C11 for the rest) *)
+Definition sb_then (pre : bytes) (o : option (bytes * bytes)) : option (bytes * bytes) :=
+  match o with Some (t, r) => Some (pre ++ t, r) | None => None end.
+
+Lemma sb_plain a rest :
+  Forall (fun c => c <> DQ /\ c <> BS) a -> string_body (a ++ rest) = sb_then a (string_body rest).
+Proof.
+  induction 1 as [|c a [H1 H2] _ IH]; cbn [app]; [destruct (string_body rest) as [[t r]|]; reflexivity|].
+  cbn [string_body]. apply N.eqb_neq in H1, H2. rewrite H1, H2, IH.
+  destruct (string_body rest) as [[t r]|]; reflexivity.
+Qed.
+
+Lemma sb_esc d rest : string_body (BS :: d :: rest) = sb_then [d] (string_body rest).
+Proof. cbn [string_body]. change (BS =? DQ) with false. change (BS =? BS) with true. cbv iota. reflexivity. Qed.
+
+Lemma sb_then_then p q o : sb_then p (sb_then q o) = sb_then (p ++ q) o.
+Proof. destruct o as [[t r]|]; cbn [sb_then]; [rewrite app_assoc|]; reflexivity. Qed.
+
+Lemma sb_filter_value v rest :
+  Forall (fun c => c <> DQ) v ->
+  string_body (escape_filter_value v ++ rest) = sb_then (filter_quote v) (string_body rest).
+Proof.
+  assert (FB : filter_escapes_backslash = true) by reflexivity.
+  induction 1 as [|c v Hc _ IH].
+  - cbn. destruct (string_body rest) as [[t r]|]; reflexivity.
+  - unfold escape_filter_value, filter_quote. cbn [flat_map]. fold (escape_filter_value v). fold (filter_quote v).
+    rewrite FB. apply N.eqb_neq in Hc. rewrite Hc. rewrite orb_false_r.
+    destruct (c =? BS) eqn:E.
+    + apply N.eqb_eq in E. subst c. cbn [app]. rewrite sb_esc, sb_esc, IH, !sb_then_then. reflexivity.
+    + cbn [app string_body]. rewrite Hc, E, IH. destruct (string_body rest) as [[t r]|]; reflexivity.
+Qed.
+
+Lemma sb_close tail : sep_tail tail -> string_body (DQ :: tail) = Some ([], strip_left tail).
+Proof. intros [->|[r ->]]; reflexivity. Qed.
+
+Definition filter_ok (f : sfilter) : Prop :=
+  plain (tag_as_str (f_tag f)) = true /\ wf_bytes (f_value f) /\
+  Forall (fun c => c <> DQ /\ c <> LF /\ c <> 0) (f_value f).
+
+Lemma plain_chars r : plain r = true ->
+  Forall (fun c => c < 256 /\ is_ws c = false /\ c <> DQ /\ c <> BS /\ c <> LF /\ c <> 0) r.
+Proof.
+  unfold plain. intros H. apply andb_true_iff in H as [_ H]. apply Forall_forall. intros x Hin.
+  rewrite forallb_forall in H. specialize (H x Hin). unfold plain_char in H.
+  assert (Hx : x < 256) by lia. rewrite (should_escape_spec x Hx) in H.
+  unfold valid_unquoted_char, is_ws in *. unfold DQ, BS, SQ, LF in *. lia.
+Qed.
+
+Lemma operator_chars o : Forall (fun c => c < 256 /\ c <> DQ /\ c <> BS /\ c <> LF /\ c <> 0) (operator_str o).
+Proof. destruct o; repeat constructor; unfold DQ, BS, LF; lia. Qed.
+
+Lemma filter_inner_reads f tail : filter_ok f -> sep_tail tail ->
+  string_body (filter_inner f ++ DQ :: tail) = Some (filter_expr f, strip_left tail).
+Proof.
+  intros (Ht & Wv & Cv) Hs.
+  assert (Pt : Forall (fun c => c <> DQ /\ c <> BS) (tag_as_str (f_tag f))).
+  { eapply Forall_impl; [|apply (plain_chars _ Ht)]. simpl. tauto. }
+  assert (Po : Forall (fun c => c <> DQ /\ c <> BS) (operator_str (f_op f))).
+  { eapply Forall_impl; [|apply operator_chars]. simpl. tauto. }
+  assert (Pv : Forall (fun c => c <> DQ) (f_value f)).
+  { eapply Forall_impl; [|exact Cv]. simpl. tauto. }
+  assert (Core : forall rest,
+    string_body (([40] ++ tag_as_str (f_tag f) ++ [SP] ++ operator_str (f_op f) ++ [SP; BS; DQ]
+                  ++ escape_filter_value (f_value f) ++ [BS; DQ; 41]) ++ rest)
+    = sb_then ([40] ++ tag_as_str (f_tag f) ++ [SP] ++ operator_str (f_op f) ++ [SP; DQ]
+               ++ filter_quote (f_value f) ++ [DQ; 41]) (string_body rest)).
+  { intros rest. rewrite <- !app_assoc.
+    rewrite (sb_plain [40]) by (repeat constructor; discriminate).
+    rewrite (sb_plain (tag_as_str (f_tag f))) by exact Pt.
+    rewrite (sb_plain [SP]) by (repeat constructor; discriminate).
+    rewrite (sb_plain (operator_str (f_op f))) by exact Po.
+    change ([SP; BS; DQ] ++ escape_filter_value (f_value f) ++ [BS; DQ; 41] ++ rest)
+      with ([SP] ++ BS :: DQ :: (escape_filter_value (f_value f) ++ BS :: DQ :: ([41] ++ rest))).
+    rewrite (sb_plain [SP]) by (repeat constructor; discriminate).
+    rewrite sb_esc, (sb_filter_value _ _ Pv), sb_esc.
+    rewrite (sb_plain [41]) by (repeat constructor; discriminate).
+    rewrite !sb_then_then. rewrite <- !app_assoc. reflexivity. }
+  unfold filter_inner, filter_expr. cbv zeta.
+  set (T := [40] ++ tag_as_str (f_tag f) ++ [SP] ++ operator_str (f_op f) ++ [SP; BS; DQ]
+            ++ escape_filter_value (f_value f) ++ [BS; DQ; 41]) in *.
+  destruct (f_neg f).
+  - replace (([40; 33] ++ T ++ [41]) ++ DQ :: tail) with ([40; 33] ++ (T ++ ([41] ++ DQ :: tail)))
+      by (rewrite <- !app_assoc; reflexivity).
+    rewrite (sb_plain [40; 33]) by (repeat constructor; discriminate).
+    rewrite Core.
+    rewrite (sb_plain [41]) by (repeat constructor; discriminate).
+    rewrite (sb_close tail Hs). cbn [sb_then]. rewrite app_nil_r, <- !app_assoc. reflexivity.
+  - rewrite Core, (sb_close tail Hs). cbn [sb_then]. rewrite app_nil_r. reflexivity.
+Qed.
+
+Lemma good_filter f : filter_ok f -> good (render_filter f) (filter_expr f).
+Proof.
+  intros Hf. pose proof Hf as (Ht & Wv & Cv). split; [|split; [|split]].
+  - intros tail Hs. unfold render_filter. rewrite <- !app_assoc. cbn [app next_param].
+    change (DQ =? DQ) with true. cbv iota. apply filter_inner_reads; assumption.
+  - exists DQ, (filter_inner f ++ [DQ]). split; reflexivity.
+  - unfold render_filter. rewrite app_assoc. apply ends_app. exists DQ, []. split; reflexivity.
+  - assert (Ct : Forall (fun x => x < 256 /\ x <> LF /\ x <> 0) (tag_as_str (f_tag f))).
+    { eapply Forall_impl; [|apply (plain_chars _ Ht)]. simpl. tauto. }
+    assert (Co : Forall (fun x => x < 256 /\ x <> LF /\ x <> 0) (operator_str (f_op f))).
+    { eapply Forall_impl; [|apply operator_chars]. simpl. tauto. }
+    assert (Ce : Forall (fun x => x < 256 /\ x <> LF /\ x <> 0) (escape_filter_value (f_value f))).
+    { unfold escape_filter_value. apply Forall_forall. intros x Hin. apply in_flat_map in Hin as (y & Hy & Hx).
+      unfold wf_bytes in Wv. rewrite Forall_forall in Wv, Cv. specialize (Wv y Hy). destruct (Cv y Hy) as (_ & C1 & C2).
+      destruct (y =? BS); [destruct filter_escapes_backslash; simpl in Hx; unfold BS, LF in *; lia|].
+      destruct (y =? DQ); simpl in Hx; unfold BS, DQ, LF in *; lia. }
+    assert (Lit : forall l, forallb (fun x => (x <? 256) && negb (x =? LF) && negb (x =? 0)) l = true ->
+                            Forall (fun x => x < 256 /\ x <> LF /\ x <> 0) l).
+    { intros l H. apply Forall_forall. intros x Hin. rewrite forallb_forall in H. specialize (H x Hin). lia. }
+    unfold render_filter, filter_inner.
+    destruct (f_neg f); repeat (apply Forall_app; split); try assumption; apply Lit; reflexivity.
+Qed.
